@@ -1283,7 +1283,9 @@ func (fr *Frame) slice(i *ssa.Slice, st *State, reach Term) *State {
 			noff = add(x.Off, lo)
 		}
 		fr.vals[i] = Val{K: KSlice, T: i.Type(), A: x.A, Off: noff, Len: sub(hi, lo), Cap: nc}
-		fr.subsliceLemma(x, lo, add(x.Off, lo), reach)
+		if sub(hi, lo) != "0" {
+			fr.subsliceLemma(x, lo, add(x.Off, lo), reach)
+		}
 		return st
 	case KArr:
 		at := x.T.Underlying().(*types.Pointer).Elem().Underlying().(*types.Array)
